@@ -44,7 +44,13 @@ RULE = ("default POSC database, read only. (A) every unit (thorough; a seeded th
         "apart), bad captions; (E) histories on a private UnitDatabase(): registrations (AddUnitBase / AddUnit / "
         "AddCategory, accepted and rejected) interleaved with GetDefaultCategory questions, failed constructions and "
         "groups of all forms for a unit and a category: bounded-exhaustive over a 13-step alphabet after a 2- or "
-        "3-call prefix to depth 3 (quick) / 4 (thorough) + random interleavings over the name pools of C14; every "
+        "3-call prefix to depth 3 (quick) / 4 (thorough) + random interleavings over the name pools of C14; (F) in the "
+        "histories also build-and-operate steps (an Array/FixedArray built from a category, a quantity, nothing "
+        "(CreateEmptyArray) or explicit list/tuple/ndarray values; then append / extend / item assignment / in-place "
+        "ndarray scaling on the container GetValues() or .values handed out: object as built and as it is afterwards) "
+        "followed by groups 'category alone vs (default value, default unit, category)': exhaustive over a 10-step "
+        "alphabet to depth 2 (quick) / 3 (thorough) + random sequences; Array/FixedArray values also lists/tuples of "
+        "LISTS and of lists and tuples mixed (every form must hold exactly the container it was given); every "
         "step's outcome is compared; distinct = distinct list of forms / history; non-trivial = at least two forms "
         "built an object (in a history: in a group that follows a registration that follows a question)")
 EXHAUSTIVE = {"quick": False, "thorough": True}
@@ -64,6 +70,10 @@ ASSUMPTIONS = [
     "== between an ndarray-valued and a tuples-valued Array (numpy broadcasts a scalar against a tuple) is not "
     "modelled and not generated: a case holds ndarrays or lists of tuples, never both",
     "default_unit of a registered category is never None (AddCategory falls back to the base unit)",
+    "in-place operations on handed-out containers: append/extend/item assignment on lists (tuples and ndarrays: the "
+    "error kind), item assignment with a float and multiplication by a power of two on float64 ndarrays (exact)",
+    "a failing input found by the oracle is re-run in a new Python process and only reported when it fails there too "
+    "(state left in the process by earlier cases is not blamed on a case that does not produce it)",
 ]
 CLS = ("scalar", "array", "fixed", "fraction")
 
@@ -107,9 +117,17 @@ def SEQ(kind, items):
     return {"seq": kind, "items": [A(i) for i in items]}
 
 
-def ROWS(kind, rows):
-    """a list (kind "list") or tuple (kind "tuple") of tuples, e.g. [(100, 150), (50, 50)]"""
-    return {"rows": kind, "items": [[A(i) for i in r] for r in rows]}
+def ROWS(kind, rows, rk=None):
+    """a list (kind "list") or tuple (kind "tuple") of tuples, e.g. [(100, 150), (50, 50)]; with rk (one bool per
+    row: "this row is a list") a list/tuple of lists or of lists and tuples mixed, e.g. [[1.0, 2.0], [3.0, 4.5]]"""
+    d = {"rows": kind, "items": [[A(i) for i in r] for r in rows]}
+    if rk is not None and any(rk):
+        d["rk"] = [bool(b) for b in rk]
+    return d
+
+
+def _row_kinds(j):
+    return j.get("rk") or [False] * len(j["items"])
 
 
 def FV(number, num, den):
@@ -191,7 +209,7 @@ def py_arg(j):
     if j is None:
         return None
     if "rows" in j:
-        rows = [tuple(py_atom(i) for i in r) for r in j["items"]]
+        rows = [(list if lk else tuple)(py_atom(i) for i in r) for r, lk in zip(j["items"], _row_kinds(j))]
         return rows if j["rows"] == "list" else tuple(rows)
     if "seq" in j:
         items = [py_atom(i) for i in j["items"]]
@@ -234,6 +252,8 @@ def canon_atom(x):
         return {"s": str(sym(x))}
     if isinstance(x, tuple):
         return {"row": [canon_atom(i) for i in x]}
+    if isinstance(x, list):
+        return {"lrow": [canon_atom(i) for i in x]}
     if isinstance(x, (bool, numpy.bool_)):
         return {"other": repr(x)}
     if isinstance(x, (int, float, numpy.number)):
@@ -387,8 +407,9 @@ def _container(rng, n=None, nda=True):
     return SEQ(kind, items)
 
 
-def _rows(rng, n=None, k=None, ragged=None):
-    """a list/tuple of n tuples of size k: non-square (n != k), square, or ragged (sizes differ, possibly 0)"""
+def _rows(rng, n=None, k=None, ragged=None, rowkind=None):
+    """a list/tuple of n rows of size k: non-square (n != k), square, or ragged (sizes differ, possibly 0); the rows
+    are tuples, lists, or lists and tuples mixed (rowkind)"""
     n = n or rng.randint(2, 4)
     if ragged is None:
         ragged = rng.random() < 0.25
@@ -396,7 +417,11 @@ def _rows(rng, n=None, k=None, ragged=None):
         k = rng.choice([n, n, n + 1, n + 2, max(1, n - 1), 1])
     sizes = [rng.randint(0, 4) for _ in range(n)] if ragged else [k] * n
     item = lambda: rng.choice([1.0, 2.5, -3.0, 0.0, rng.uniform(-100, 100), rng.randint(-9, 9), 100, 150, 50])  # noqa
-    return ROWS(rng.choice(["list", "list", "tuple"]), [[item() for _ in range(m)] for m in sizes])
+    # the rows: tuples / lists / lists and tuples mixed
+    if rowkind is None:
+        rowkind = rng.choice(["tuples", "tuples", "lists", "lists", "mixed"])
+    rk = [rowkind == "lists" or (rowkind == "mixed" and (i == 0 or rng.random() < 0.5)) for i in range(n)]
+    return ROWS(rng.choice(["list", "list", "tuple"]), [[item() for _ in range(m)] for m in sizes], rk)
 
 
 def _fraction_value(rng):
@@ -480,15 +505,20 @@ def rows_cases(ctx, rng, nunits):
     units with their default category"""
     db = ctx.db
     shapes = [(2, 3, False), (3, 2, False), (2, 2, False), (3, 3, False), (4, 1, False), (2, 5, False),
-              (3, None, True), (2, None, True)]
-    for _qt, u in rng.sample(ctx.units, min(nunits, len(ctx.units))):
+              (3, None, True), (2, None, True), (1, 1, False)]
+    kinds = ["tuples", "lists", "mixed"]
+    for iu, (_qt, u) in enumerate(rng.sample(ctx.units, min(nunits, len(ctx.units)))):
         dc = db.GetDefaultCategory(u)
         if not dc:
             continue
-        for n, k, ragged in shapes:
-            v = _rows(rng, n, k, ragged)
+        for ish, (n, k, ragged) in enumerate(shapes):
+            # every shape meets every kind of row (tuples, lists, mixed) as the units go by
+            v = _rows(rng, n, k, ragged, rowkind=kinds[(iu + ish) % 3])
             for cls in ("array", "fixed"):
-                yield _case("unit", unit_forms(cls, u, dc, v, True), unit=u, category=dc, default=True)
+                # a FixedArray of dimension 1 does not exist: its forms are compared with the model (all raise), but
+                # they are no documented forms the oracle could demand
+                yield _case("unit", unit_forms(cls, u, dc, v, not (cls == "fixed" and n < 2)), unit=u, category=dc,
+                            default=True)
 
 
 def category_cases(ctx, rng, nconv=2):
@@ -863,6 +893,82 @@ def H_group(cls, u, c, v=None, extra=()):
     return dict(q="forms", cls=cls, u=u, c=c, v=v, extra=list(extra))
 
 
+def H_mut(f, muts):
+    """build an object with the form f, then operate in place on the container it hands out"""
+    return dict(q="mut", form=f, muts=list(muts))
+
+
+def H_catonly(cls, c, du, d=3):
+    """the object built from the category alone next to (default value, default unit du, category) - judged by the
+    oracle when du IS the category's default unit at that point of the history"""
+    return dict(q="catonly", cls=cls, c=c, du=du, d=d)
+
+
+def M_append(x, via="GetValues"):
+    return dict(m="append", x=A(x), via=via)
+
+
+def M_extend(xs, via="GetValues"):
+    return dict(m="extend", xs=[A(x) for x in xs], via=via)
+
+
+def M_set(i, x, via="GetValues"):
+    return dict(m="set", i=str(int(i)), x=A(x), via=via)
+
+
+def M_scale(k, via="GetValues"):
+    return dict(m="scale", k=qstr(exact(float(k))), via=via)
+
+
+def _catonly_forms(g):
+    cls, c, du, d = g["cls"], g["c"], g["du"], g["d"]
+    if cls == "array":
+        return [form("array", c, p=1), form("array", SEQ("list", []), du, c, p=1), form("array", OQ(du, c)),
+                form("array", c, SEQ("list", []), du), form("array", c, kw=True)]
+    return [form("fixed", c, dim=d, p=1), form("fixed", SEQ("list", [0.0] * d), du, c, dim=d, p=1),
+            form("fixed", OQ(du, c), dim=d), form("fixed", c, SEQ("list", [0.0] * d), du, dim=d)]
+
+
+def apply_mut(o, m):
+    """one in-place operation on the container the object hands out (raises what Python raises)"""
+    v = o.values if m.get("via") == "values" else o.GetValues()
+    if m["m"] == "append":
+        v.append(py_atom(m["x"]))
+    elif m["m"] == "extend":
+        v.extend([py_atom(x) for x in m["xs"]])
+    elif m["m"] == "set":
+        v[int(m["i"])] = py_atom(m["x"])
+    elif m["m"] == "scale":
+        q = qparse(m["k"])
+        v *= q.numerator / q.denominator
+    else:
+        raise RuntimeError("unknown mutation")
+
+
+def run_mut(st):
+    o, e = try_build(st["form"])
+    if e is not None:
+        return dict(built=dict(err=e), after=None)
+    built = dict(ok=canon_obj(o))
+    for m in st["muts"]:
+        try:
+            apply_mut(o, m)
+        except Exception as ex:  # noqa
+            return dict(built=built, after=dict(err=err_kind(ex)))
+    return dict(built=built, after=dict(ok=canon_obj(o)))
+
+
+def _show_mut(m):
+    acc = ".values" if m.get("via") == "values" else ".GetValues()"
+    if m["m"] == "append":
+        return "o%s.append(%r)" % (acc, _show_atom(m["x"]))
+    if m["m"] == "extend":
+        return "o%s.extend(%r)" % (acc, [_show_atom(x) for x in m["xs"]])
+    if m["m"] == "set":
+        return "o%s[%s] = %r" % (acc, m["i"], _show_atom(m["x"]))
+    return "v = o%s; v *= %r" % (acc, float(qparse(m["k"])))
+
+
 def _group_forms(g, rng):
     cls, u, c = g["cls"], g["u"], g["c"]
     v = g.get("v")
@@ -886,6 +992,12 @@ def _hist(ops, rng, tag):
         elif o.get("q") == "forms":
             steps.append(dict(q="forms", forms=_group_forms(o, rng), repr=(o["cls"] == "scalar")))
             tsteps.append(dict(q="forms", u=o["u"], c=o["c"], cls=o["cls"]))
+        elif o.get("q") == "catonly":
+            steps.append(dict(q="forms", forms=_catonly_forms(o), repr=False))
+            tsteps.append(dict(q="forms", catonly=True, c=o["c"], du=o["du"], cls=o["cls"]))
+        elif o.get("q") == "mut":
+            steps.append(dict(q="mut", form=o["form"], muts=o["muts"]))
+            tsteps.append(dict(q="mut"))
         else:
             steps.append(rc.enc_reg(o))
             tsteps.append(o)
@@ -930,6 +1042,100 @@ def _h_exhaustive(rng, prefixes, depth, idxs=None):
                 yield _hist(pre + [alpha[i] for i in combo], rng, "exhaustive")
 
 
+def _h_mut_alphabet(rng):
+    """build an object (mostly without values), operate on the container it handed out; build from the category alone"""
+    x = lambda: rng.choice([1.0, 2.5, -3.0, 7, 100, 0.0])  # noqa
+    reg = _reg()
+    return [
+        H_mut(form("array", "length"), [M_append(x())]),
+        H_mut(form("array", OQ("m", "length")), [M_extend([x(), x()], via="values")]),
+        H_mut(form("fixed", "length", dim=3), [M_set(0, 5.5), M_append(x())]),
+        H_mut(form("array", SEQ("nda", [1.0, 2.0, 3.0]), "m"), [M_scale(2.0, via="values"), M_set(1, 5.0)]),
+        H_mut(form("array", None, k="empty"), [M_append(x())]),
+        H_mut(form("array", "depth"), [M_append(x()), M_set(0, 4.0, via="values"), M_set(3, x())]),
+        H_catonly("array", "length", "m"),
+        H_catonly("fixed", "length", "m", 3),
+        H_catonly("array", "depth", "m"),
+        reg._cat("depth", "length"),
+    ]
+
+
+def _h_mut_exhaustive(rng, depth):
+    import itertools
+
+    _p1, p2 = _h_prefixes()
+    alpha = _h_mut_alphabet(rng)
+    for d in range(2, depth + 1):
+        for combo in itertools.product(range(len(alpha)), repeat=d):
+            seen_mut = False
+            ok = False
+            for i in combo:
+                q = alpha[i].get("q")
+                if q == "mut":
+                    seen_mut = True
+                elif q == "catonly" and seen_mut:
+                    ok = True
+            if ok:      # a construction from the category alone after a container was operated on
+                yield _hist(p2 + [alpha[i] for i in combo], rng, "mut-exhaustive")
+
+
+def _rnd_mut(rng, u, c):
+    """a random build-and-operate step for unit u and category c"""
+    x = lambda: rng.choice([1.0, 2.5, -3.0, 7, 100, 0.0, rng.uniform(-50, 50)])  # noqa
+    via = lambda: rng.choice(["GetValues", "values"])  # noqa
+    r = rng.random()
+    d = rng.choice([2, 3, 4])
+    if r < 0.25:
+        f = form("array", rng.choice([c, OQ(u, c), OQ(u, None)]))
+    elif r < 0.4:
+        f = form("fixed", rng.choice([c, OQ(u, c)]), dim=d)
+    elif r < 0.5:
+        f = rng.choice([form("array", None, k="empty"), form("fixed", None, k="empty", dim=d)])
+    elif r < 0.7:
+        n = rng.choice([0, 1, 3])
+        f = form("array", SEQ(rng.choice(["list", "list", "tuple"]), [x() for _ in range(n)]), u, rng.choice([None, c]))
+    elif r < 0.85:
+        f = form("array", SEQ("nda", [float(x()) for _ in range(rng.choice([1, 3]))]), u)
+    else:
+        f = form("fixed", SEQ("list", [x() for _ in range(d)]), u, dim=d)
+    nda = isinstance(f.get("a1"), dict) and f["a1"].get("seq") == "nda"
+    muts = []
+    for _ in range(rng.choice([1, 1, 2, 3])):
+        r = rng.random()
+        if nda:
+            muts.append(M_scale(rng.choice([2.0, 0.5, -1.0, 4.0]), via()) if r < 0.5 else
+                        M_set(rng.choice([0, 0, 1, 2, 5]), float(x()), via()) if r < 0.9 else M_append(x(), via()))
+        elif r < 0.45:
+            muts.append(M_append(x(), via()))
+        elif r < 0.7:
+            muts.append(M_extend([x() for _ in range(rng.choice([0, 1, 2]))], via()))
+        else:
+            muts.append(M_set(rng.choice([0, 0, 1, 2, 6]), x(), via()))
+    return H_mut(f, muts)
+
+
+def _h_mut_random(rng, n, maxlen):
+    reg = _reg()
+    _p1, p2 = _h_prefixes()
+    for _ in range(n):
+        ops = list(p2) + ([reg._cat("depth", "length")] if rng.random() < 0.5 else [])
+        for _ in range(rng.randint(2, maxlen)):
+            r = rng.random()
+            u, c = rng.choice(["m", "cm", "m", "km"]), rng.choice(["length", "length", "depth"])
+            if r < 0.45:
+                ops.append(_rnd_mut(rng, u, c))
+            elif r < 0.85:
+                ops.append(H_catonly(rng.choice(["array", "array", "fixed"]), c, rng.choice(["m", "m", "m", "cm"]),
+                                     rng.choice([2, 3, 4])))
+            elif r < 0.92:
+                ops.append(rng.choice([reg._cat("depth", "length"), reg._unit("length", "km"),
+                                       reg._cat("length", "length", override=True, default_unit="cm"),
+                                       reg._cat("depth", "length", override=True, default_unit="cm")]))
+            else:
+                ops.append(H_group(rng.choice(["array", "fixed"]), u, c))
+        yield _hist(ops, rng, "mut-random")
+
+
 def _h_random(rng, n, maxlen):
     reg = _reg()
     types = reg.TYPES
@@ -946,7 +1152,12 @@ def _h_random(rng, n, maxlen):
             r = rng.random()
             u = rng.choice(regd) if regd and rng.random() < 0.7 else rng.choice(syms)
             if r < 0.2:
-                ops.append(H_defcat(u))
+                if rng.random() < 0.3:
+                    c = rng.choice(cats + types)
+                    ops.append(_rnd_mut(rng, u, c) if rng.random() < 0.5 else
+                               H_catonly(rng.choice(["array", "fixed"]), c, rng.choice(syms), rng.choice([2, 3])))
+                else:
+                    ops.append(H_defcat(u))
             elif r < 0.3 and ops:
                 ops.append(dict(rng.choice(ops)))            # an earlier step again
             elif r < 0.45:
@@ -980,11 +1191,15 @@ def history_cases(ctx, rng, tier):
         yield from _h_exhaustive(rng, (p1, p2), 2)
         yield from _h_exhaustive(rng, (p1,), 3)
         yield from _h_exhaustive(rng, (p2,), 3, core)
-        yield from _h_random(rng, 600, 14)
+        yield from _h_random(rng, 500, 14)
+        yield from _h_mut_exhaustive(rng, 2)
+        yield from _h_mut_random(rng, 150, 7)
     else:
         yield from _h_exhaustive(rng, (p1, p2), 3)
         yield from _h_exhaustive(rng, (p1,), 4, core)
         yield from _h_random(rng, 6000, 18)
+        yield from _h_mut_exhaustive(rng, 3)
+        yield from _h_mut_random(rng, 1500, 9)
 
 
 
@@ -1032,7 +1247,7 @@ def _show_atom(j):
 
 def _show_arg(j):
     if isinstance(j, dict) and "rows" in j:
-        rows = [tuple(_show_atom(i) for i in r) for r in j["items"]]
+        rows = [(list if lk else tuple)(_show_atom(i) for i in r) for r, lk in zip(j["items"], _row_kinds(j))]
         return repr(rows if j["rows"] == "list" else tuple(rows))
     if isinstance(j, dict) and "seq" in j:
         return "%s%r" % (j["seq"], [_show_atom(i) for i in j["items"]])
@@ -1087,6 +1302,8 @@ def _show_step(st, t):
         return "GetDefaultCategory(%r)" % (t["u"],)
     if st.get("q") == "forms":
         return [show_form(f) for f in st["forms"]]
+    if st.get("q") == "mut":
+        return "o = %s; %s" % (show_form(st["form"]), "; ".join(_show_mut(m) for m in st["muts"]))
     return _reg()._show_op(t)
 
 
@@ -1168,6 +1385,10 @@ def run_history(c, fr=None, upto=None, judge=None):
                     outs.append(dict(err=err_kind(e)))
             elif st.get("q") == "forms":
                 outs.append(run_forms(st, fr))
+            elif st.get("q") == "mut":
+                outs.append(run_mut(st))
+                k2 = "mutated:" + ("err" if outs[-1]["after"] is None else next(iter(outs[-1]["after"])))
+                fr[k2] = fr.get(k2, 0) + 1
             else:
                 outs.append(rc.apply_reg(db, t))
             if judge is not None:
@@ -1240,12 +1461,32 @@ def agree(c, io, mo, ctx):
                 why = None if a == b else "impl=%r model=%r" % (a, b)
             elif st.get("q") == "forms":
                 why = agree_forms(st, a, b)
+            elif st.get("q") == "mut":
+                why = agree_mut(a, b)
             else:
                 why = rc.cmp_reg_out(a, b)
             if why:
                 return "step %d (%s): %s" % (i, str(_show_step(st, c["_t"]["steps"][i]))[:200], why)
         return None
     return agree_forms(c, io, mo)
+
+
+def agree_mut(a, b):
+    """the object as built and as it is after the operations on its container: exactly (no float arithmetic but a
+    multiplication by a power of two)"""
+    for k in ("built", "after"):
+        x, y = a.get(k), b.get(k)
+        if (x is None) != (y is None):
+            return "%s: one side has no object: impl=%r model=%r" % (k, x, y)
+        if x is None:
+            continue
+        if ("err" in x) != ("err" in y) or ("err" in x and x["err"] != y["err"]):
+            return "%s: impl=%r model=%r" % (k, x, y)
+        if "ok" in x:
+            why = _obj_agree(x["ok"], y["ok"], None)
+            if why:
+                return "%s: %s" % (k, why)
+    return None
 
 
 def agree_forms(c, io, mo):
@@ -1321,6 +1562,36 @@ def nontrivial(c, io):
 
 # ------------------------------------------------------------------------------------------ the property, real code only
 def oracle(c, ctx):
+    """the property on the real code, in this process; a failure counts only when the case fails ON ITS OWN, i.e. also
+    in a new Python process that runs nothing but this case (state that an earlier case left behind in the process -
+    a class-level container, a cache - must not be blamed on a case that does not produce it)"""
+    f = oracle_here(c, ctx.db)
+    if f and not confirmed_in_fresh_process(c):
+        return None
+    return f
+
+
+def confirmed_in_fresh_process(c):
+    import json
+    import os
+    import subprocess
+    import sys
+
+    here = os.path.dirname(os.path.abspath(__file__))
+    code = ("import sys, json; sys.path[:0] = [%r, %r]; import common; common.load_barril(); import C19; "
+            "from barril.units.unit_database import UnitDatabase; c = json.load(sys.stdin); "
+            "f = C19.oracle_here(c, UnitDatabase.GetSingleton()); print('@@C19@@' + ('FAILS' if f else 'HOLDS'))"
+            % (os.path.dirname(here), here))
+    try:
+        r = subprocess.run([sys.executable, "-c", code], input=json.dumps(c, default=str), capture_output=True,
+                           text=True, timeout=300, env=dict(os.environ))
+    except Exception:  # noqa
+        return True     # cannot tell: report rather than hide
+    # anything but a clean "holds" (also a crash of the child) leaves the failure standing
+    return "@@C19@@HOLDS" not in r.stdout
+
+
+def oracle_here(c, db):
     if c.get("op") == "hist":
         return oracle_history(c)
     if c.get("op") != "forms":
@@ -1329,7 +1600,7 @@ def oracle(c, ctx):
     kind = t.get("kind")
     if kind == "unit":
         # the property speaks about the unit's default category
-        if ctx.db.GetDefaultCategory(t["unit"]) != t["category"]:
+        if db.GetDefaultCategory(t["unit"]) != t["category"]:
             return None
     elif kind == "qfirst":
         return oracle_quantity(c)
@@ -1363,6 +1634,13 @@ def judge_forms(c, kind, where=None):
                         if kind == "catonly" else "equivalent construction forms build different objects",
                         a=show_form(named[0]), b=show_form(f), got_a=repr(ref), got_b=repr(o),
                         quantity_a=_describe_q(ref), quantity_b=_describe_q(o))
+    for f, o in zip(named, objs):
+        # an Array / FixedArray holds exactly the container it was given (kind of the container and of its rows,
+        # element types included)
+        given = _given_values(f)
+        if given is not None and not _same_container(given, o.GetValues()):
+            return dict(extra, clause="the object does not hold the values it was given", form=show_form(f),
+                        given=repr(given), holds=repr(o.GetValues()))
     if c.get("repr"):
         from barril.units import Scalar
 
@@ -1377,6 +1655,25 @@ def judge_forms(c, kind, where=None):
                 if not ok:
                     return dict(extra, clause="eval(repr(scalar)) != scalar", form=show_form(f), repr=repr(o), back=repr(back))
     return None
+
+
+def _given_values(f):
+    if f["cls"] not in ("array", "fixed"):
+        return None
+    for a in (f.get("a1"), f.get("a2")):
+        if isinstance(a, dict) and ("rows" in a or "seq" in a):
+            return py_arg(a)
+    return None
+
+
+def _same_container(a, b):
+    if type(a) is not type(b):
+        return False
+    if isinstance(a, numpy.ndarray):
+        return a.dtype == b.dtype and a.shape == b.shape and bool((a == b).all())
+    if isinstance(a, (list, tuple)):
+        return len(a) == len(b) and all(_same_container(x, y) for x, y in zip(a, b))
+    return bool(a == b)
 
 
 def _describe_q(o):
@@ -1443,6 +1740,8 @@ def oracle_history(c):
         st, t = c["steps"][i], c["_t"]["steps"][i]
         if st.get("q") != "forms":
             return None
+        if t.get("catonly"):
+            return judge_catonly(c, i, st, t)
         dc = fresh_default_category(c, i, t["u"])
         if not dc or dc != t["c"]:
             return None
@@ -1462,10 +1761,41 @@ def oracle_history(c):
             UnitDatabase.PopSingleton()
         return judge_forms(st, "unit", where=dict(
             step=i, unit=t["u"], category=t["c"],
-            history=[_show_step(a, b) if a.get("q") != "forms" else "forms for (%r, %r)" % (b["u"], b["c"])
-                     for a, b in list(zip(c["steps"], c["_t"]["steps"]))[:i]]))
+            history=_history_text(c, i)))
 
     return run_history(c, judge=judge)
+
+
+def _history_text(c, i):
+    return [_show_step(a, b) if a.get("q") != "forms" else "forms for (%r, %r)" % (b.get("u"), b["c"])
+            for a, b in list(zip(c["steps"], c["_t"]["steps"]))[:i]]
+
+
+def judge_catonly(c, i, st, t):
+    """a group "category alone next to (default value, default unit, category)" at step i of a history: the property
+    speaks when a NEW database that received the same registrations knows the category, names the unit the group uses
+    as its default unit and builds Quantity(category, default unit); then the object built from the category alone
+    must equal the explicit one whatever was built before and whatever the callers did with the containers the
+    earlier objects handed out"""
+    import _reg_common as rc
+    from barril.units import ObtainQuantity
+    from barril.units.unit_database import UnitDatabase
+
+    fresh = UnitDatabase()
+    UnitDatabase.PushSingleton(fresh)
+    try:
+        for st2, t2 in list(zip(c["steps"], c["_t"]["steps"]))[:i]:
+            if "q" not in st2:
+                rc.apply_reg(fresh, t2)
+        try:
+            if fresh.GetCategoryInfo(t["c"]).default_unit != t["du"]:
+                return None
+            ObtainQuantity(t["du"], t["c"])
+        except Exception:  # noqa
+            return None
+    finally:
+        UnitDatabase.PopSingleton()
+    return judge_forms(st, "catonly", where=dict(step=i, category=t["c"], history=_history_text(c, i)))
 
 
 def shrink(case, failure, ctx):
@@ -1503,18 +1833,27 @@ def shrink_history(case, failure):
     if isinstance(failure.get("step"), int):
         keep = keep[:failure["step"] + 1]
     best = failure
-    changed = True
-    while changed:
-        changed = False
-        for i in list(keep[:-1]):
-            trial = [k for k in keep if k != i]
-            try:
-                f2 = oracle_history(sub(trial))
-            except Exception:  # noqa
-                f2 = None
-            if f2:
-                keep, best, changed = trial, f2, True
-                break
+    # first the steps that build nothing a caller could operate on, judged in this process; then the build-and-operate
+    # steps, each removal confirmed in a new process (what such a step leaves behind may already sit in this one)
+    for mut_pass in (False, True):
+        changed = True
+        while changed:
+            changed = False
+            for i in list(keep[:-1]):
+                if (case["steps"][i].get("q") == "mut") != mut_pass:
+                    continue
+                trial = [k for k in keep if k != i]
+                try:
+                    f2 = oracle_history(sub(trial))
+                    if f2 and mut_pass and not confirmed_in_fresh_process(sub(trial)):
+                        f2 = None
+                except Exception:  # noqa
+                    f2 = None
+                if f2:
+                    keep, best, changed = trial, f2, True
+                    break
+    if len(keep) < len(case["steps"]) and not confirmed_in_fresh_process(sub(keep)):
+        return case, failure
     return sub(keep), best
 
 
